@@ -1292,8 +1292,13 @@ def etext(enc, s):
     return {0: lambda: s.encode("latin-1") + b"\0", 1: lambda: b"\xff\xfe" + s.encode("utf-16-le") + b"\0\0"}[enc]()
 
 
+def build_v24(frames):
+    body = b"".join(i.encode() + syncsafe4(len(p)) + b"\0\0" + p for i, p in frames)
+    return b"ID3\x04\x00\x00" + syncsafe4(len(body)) + body
+
+
 def hand_case(rng):
-    """one old-style tag description: the same information as v2.2 bytes and as v2.3 bytes"""
+    """one old-style tag description: the same information as v2.2 bytes, as v2.3 bytes and as v2.4 bytes"""
     e = rng.choice([0, 1])
     al = LATIN.replace("/", "").replace(";", "") if e == 0 else "abc \u4e2d\u20ac"
     tx = lambda lo=1, hi=9: ("".join(rng.choice(al) for _ in range(rng.randrange(lo, hi + 1))).strip() or "x")
@@ -1301,22 +1306,42 @@ def hand_case(rng):
             "h": rng.randrange(0, 24), "mi": rng.randrange(0, 60), "oy": rng.randrange(1, 10000),
             "people": [(tx(), tx()) for _ in range(rng.randrange(1, 4))], "genre": rng.choice([0, 1, 17, 8]), "track": "%d/%d" % (rng.randrange(1, 20), 20),
             "comment": tx(3, 12), "pic": bytes(rng.randrange(1, 256) for _ in range(rng.randrange(140, 300))), "has_time": rng.random() < 0.8, "has_date": rng.random() < 0.85}
+    info["musicians"] = [(tx(), tx()) for _ in range(rng.randrange(0, 3))]      # v2.4 sources only (TMCL)
+    info["has_year"] = rng.random() < 0.85                                      # without a year the v2 tag carries no recording date at all
     return info
+
+
+def hand_date(info, src):
+    """(has year, has date, has time) of the v2 source"""
+    hy = info.get("has_year", True)
+    hd = hy and info["has_date"]
+    ht = hy and info["has_time"] and (hd or src != 4)
+    return hy, hd, ht
 
 
 def hand_frames(info, ver):
     e = info["enc"]
     T = lambda s: bytes([e]) + etext(e, s)
     ids = {2: dict(t="TT2", a="TP1", l="TAL", y="TYE", d="TDA", m="TIM", o="TOR", p="IPL", g="TCO", k="TRK", c="COM", pic="PIC"),
-           3: dict(t="TIT2", a="TPE1", l="TALB", y="TYER", d="TDAT", m="TIME", o="TORY", p="IPLS", g="TCON", k="TRCK", c="COMM", pic="APIC")}[ver]
-    fr = [(ids["t"], T(info["title"])), (ids["a"], T(info["artist"])), (ids["l"], T(info["album"])), (ids["y"], T("%04d" % info["y"]))]
-    if info["has_date"]:
-        fr.append((ids["d"], T("%02d%02d" % (info["d"], info["mo"]))))
-    if info["has_time"]:
-        fr.append((ids["m"], T("%02d%02d" % (info["h"], info["mi"]))))
+           3: dict(t="TIT2", a="TPE1", l="TALB", y="TYER", d="TDAT", m="TIME", o="TORY", p="IPLS", g="TCON", k="TRCK", c="COMM", pic="APIC"),
+           4: dict(t="TIT2", a="TPE1", l="TALB", y="TDRC", o="TDOR", p="TIPL", g="TCON", k="TRCK", c="COMM", pic="APIC")}[ver]
+    hy, hd, ht = hand_date(info, ver)
+    fr = [(ids["t"], T(info["title"])), (ids["a"], T(info["artist"])), (ids["l"], T(info["album"]))]
+    if ver == 4:
+        if hy:
+            fr.append((ids["y"], T("%04d" % info["y"] + ("-%02d-%02d" % (info["mo"], info["d"]) if hd else "") + ("T%02d:%02d" % (info["h"], info["mi"]) if ht else ""))))
+    else:
+        if hy:
+            fr.append((ids["y"], T("%04d" % info["y"])))
+        if hd:
+            fr.append((ids["d"], T("%02d%02d" % (info["d"], info["mo"]))))
+        if ht:
+            fr.append((ids["m"], T("%02d%02d" % (info["h"], info["mi"]))))
     fr.append((ids["o"], T("%04d" % info["oy"])))
     fr.append((ids["p"], bytes([e]) + b"".join(etext(e, a) + etext(e, b) for a, b in info["people"])))
-    fr.append((ids["g"], T("(%d)" % info["genre"])))
+    if ver == 4 and info.get("musicians"):
+        fr.append(("TMCL", bytes([e]) + b"".join(etext(e, a) + etext(e, b) for a, b in info["musicians"])))
+    fr.append((ids["g"], T("(%d)" % info["genre"] if ver != 4 else "%d" % info["genre"])))
     fr.append((ids["k"], T(info["track"])))
     fr.append((ids["c"], bytes([e]) + b"eng" + etext(e, "") + etext(e, info["comment"])))
     if ver == 2:
@@ -1326,25 +1351,58 @@ def hand_frames(info, ver):
     return fr
 
 
-def oracle_hand(ctx, case_seed, src, dst):
-    """load a hand-built v2.<src> tag, save as v2.<dst>, decode the raw result independently"""
+V1SRC = [y + "-" + f for y in ("same", "diff", "none") for f in ("filled", "blank")]
+HAND_LOADS = ("explicit", "default", "v2ver")
+V1_FILLED = {"title": "v1 title", "artist": "v1 artist", "album": "v1 album", "comment": "v1 comment", "track": 9, "genre": 12}
+
+
+def hand_v1_block(info, v1src):
+    """the ID3v1 block appended to the source file: year equal to / different from the v2 year / absent; other fields filled (all different
+    from the v2 tag) or blank. -> (128 bytes, year text or None)"""
+    ykind, fkind = v1src.split("-")
+    year = {"same": "%04d" % info["y"], "diff": "%04d" % (info["y"] % 9998 + 1), "none": None}[ykind]
+    fl = V1_FILLED if fkind == "filled" else {"title": "", "artist": "", "album": "", "comment": "", "track": 0, "genre": 255}
+    pad = lambda s, n: s.encode("latin-1").ljust(n, b"\0")
+    blk = b"TAG" + pad(fl["title"], 30) + pad(fl["artist"], 30) + pad(fl["album"], 30) + pad(year or "", 4) + pad(fl["comment"], 28) + b"\0" + bytes([fl["track"], fl["genre"]])
+    assert len(blk) == 128
+    return blk, year
+
+
+def oracle_hand(ctx, case_seed, src, dst, v1src=None, load="explicit"):
+    """a hand-built v2.<src> tag (optionally followed by an ID3v1 block) is loaded -- load='explicit': ID3(f, v2_version=dst, load_v1=False);
+    'default': ID3(f) with every default, then update_to_v23() for a v2.3 target; 'v2ver': ID3(f, v2_version=dst) -- and saved as v2.<dst>;
+    the raw result is decoded independently. The v2 tag has precedence over the ID3v1 block for every field it carries."""
     I = M()[0]
     before = len(ctx.violations)
     info = hand_case(random.Random(case_seed))
-    data = {"hand_seed": case_seed, "hand": desc_json(_info_json(info)), "src": src, "dst": dst}
+    data = {"hand_seed": case_seed, "hand": desc_json(_info_json(info)), "src": src, "dst": dst, "v1src": v1src, "load": load}
     viol = lambda what, cls: _viol(ctx, what, cls, data)
-    raw0 = (build_v22 if src == 2 else build_v23)(hand_frames(info, src)) + AUDIO
+    raw0 = {2: build_v22, 3: build_v23, 4: build_v24}[src](hand_frames(info, src)) + AUDIO
+    v1year, v1filled = None, False
+    if v1src is not None:
+        blk0, v1year = hand_v1_block(info, v1src)
+        v1filled = v1src.endswith("filled")
+        raw0 += blk0
+    withv1 = " (source file ends with an ID3v1 block, year %s the v2 year)" % v1src.split("-")[0] if v1src else ""
     try:
-        t = I.ID3(io.BytesIO(raw0), v2_version=dst, load_v1=False)
+        if load == "explicit":
+            t = I.ID3(io.BytesIO(raw0), v2_version=dst, load_v1=False)
+            v1year, v1filled = None, False
+        elif load == "v2ver":
+            t = I.ID3(io.BytesIO(raw0), v2_version=dst)
+        else:
+            t = I.ID3(io.BytesIO(raw0))
+            if dst == 3:
+                t.update_to_v23()
         f = io.BytesIO(raw0)
         t.save(f, v1=2, v2_version=dst, v23_sep="/")
     except Exception as e:
-        viol("loading a v2.%d tag and saving it as v2.%d failed: %s" % (src, dst, type(e).__name__), "hand-failed")
+        viol("loading a v2.%d tag and saving it as v2.%d failed: %s" % (src, dst, type(e).__name__) + withv1, "hand-failed")
         return 1
     raw = f.getvalue()
     ctx.oracle_cases += 1
-    ctx.count("oracle:v2.%d->v2.%d" % (src, dst))
-    ctx.case(("hand", case_seed, src, dst))
+    ctx.count("oracle:v2.%d->v2.%d%s" % (src, dst, "+v1" if v1src else ""))
+    ctx.case(("hand", case_seed, src, dst, v1src, load))
     try:
         w = W.id3v2_walk(raw)
         dec = {}
@@ -1356,51 +1414,70 @@ def oracle_hand(ctx, case_seed, src, dst):
     if w["version"] != dst or w["flags"] != 0:
         viol("saved tag declares version 2.%d flags %#x, asked for 2.%d" % (w["version"], w["flags"], dst), "version-byte")
     tx = lambda i: dec[i][0][3] if i in dec else None
+    hy, hd, ht = hand_date(info, src)
+    via24 = src == 4 or load == "default"          # the date went through a TDRC: a time needs a complete date and non-zero hour and minute (code detail)
     for i, k in (("TIT2", "title"), ("TPE1", "artist"), ("TALB", "album")):
         if tx(i) != (info[k],):
-            viol("text of %s is not preserved when converting v2.%d to v2.%d" % (i, src, dst), "hand-text")
+            viol("text of %s is not preserved when converting v2.%d to v2.%d" % (i, src, dst) + withv1, "hand-text")
     if tx("TRCK") != (info["track"],):
-        viol("TRCK is not preserved when converting v2.%d to v2.%d" % (src, dst), "hand-text")
+        viol("TRCK is not preserved when converting v2.%d to v2.%d" % (src, dst) + withv1, "hand-text")
     G = genres_table()
     if tx("TCON") != (G[info["genre"]],):
-        viol("genre is not preserved when converting v2.%d to v2.%d" % (src, dst), "hand-genre")
-    if "COMM" not in dec or dec["COMM"][0][4] != (info["comment"],):
-        viol("comment is not preserved when converting v2.%d to v2.%d" % (src, dst), "hand-comment")
+        viol("genre is not preserved when converting v2.%d to v2.%d" % (src, dst) + withv1, "hand-genre")
+    comm = [c for c in dec.get("COMM", []) if c[3] == ""]
+    if not comm or comm[0][4] != (info["comment"],):
+        viol("comment is not preserved when converting v2.%d to v2.%d" % (src, dst) + withv1, "hand-comment")
     if "APIC" not in dec or dec["APIC"][0][2] != "image/jpeg" or dec["APIC"][0][5] != info["pic"]:
-        viol("picture is not preserved when converting v2.%d to v2.%d" % (src, dst), "hand-picture")
+        viol("picture is not preserved when converting v2.%d to v2.%d" % (src, dst) + withv1, "hand-picture")
+    people = tuple(info["people"])
+    music = tuple(info.get("musicians") or ()) if src == 4 else ()
     if dst == 4:
-        want = "%04d" % info["y"]
-        if info["has_date"]:
-            want += "-%02d-%02d" % (info["mo"], info["d"])
-            if info["has_time"]:
-                want += "T%02d:%02d:00" % (info["h"], info["mi"])
-        if tx("TDRC") != (want,):
-            viol("TYER/TDAT/TIME of a v2.%d tag are not carried into TDRC" % src, "hand-tdrc")
+        if hy:
+            want = "%04d" % info["y"]
+            if hd:
+                want += "-%02d-%02d" % (info["mo"], info["d"])
+                if ht:
+                    want += "T%02d:%02d" % (info["h"], info["mi"]) + (":00" if src != 4 else "")
+            if tx("TDRC") != (want,):
+                viol(("TYER/TDAT/TIME of a v2.%d tag are not carried into TDRC" % src if src != 4 else "TDRC of a v2.4 tag is not preserved") + withv1, "hand-tdrc")
+        elif tx("TDRC") != ((v1year,) if v1year else None):
+            viol("the year of the ID3v1 block is not the TDRC of a tag whose v2.%d part has no year" % src, "hand-v1-year")
         if tx("TDOR") != ("%04d" % info["oy"],):
-            viol("TORY of a v2.%d tag is not carried into TDOR" % src, "hand-tdor")
-        if "TIPL" not in dec or dec["TIPL"][0][3] != tuple(info["people"]):
-            viol("IPLS of a v2.%d tag is not carried into TIPL" % src, "hand-tipl")
+            viol(("TORY of a v2.%d tag is not carried into TDOR" % src if src != 4 else "TDOR of a v2.4 tag is not preserved") + withv1, "hand-tdor")
+        if "TIPL" not in dec or dec["TIPL"][0][3] != people:
+            viol(("IPLS of a v2.%d tag is not carried into TIPL" % src if src != 4 else "TIPL of a v2.4 tag is not preserved") + withv1, "hand-tipl")
+        if music and ("TMCL" not in dec or dec["TMCL"][0][3] != music):
+            viol("TMCL of a v2.4 tag is not preserved" + withv1, "hand-tmcl")
         for i in ("TYER", "TDAT", "TIME", "TORY", "IPLS"):
             if i in dec:
                 viol("v2.4 tag contains the v2.3-only frame %s" % i, "v23-frame-in-v24")
     else:
-        if tx("TYER") != ("%04d" % info["y"],) or (info["has_date"] and tx("TDAT") != ("%02d%02d" % (info["d"], info["mo"]),)) or \
-                (info["has_time"] and tx("TIME") != ("%02d%02d" % (info["h"], info["mi"]),)):
-            viol("TYER/TDAT/TIME of a v2.%d tag are not preserved in the v2.3 tag" % src, "hand-date23")
+        if hy:
+            time_ok = ht and (not via24 or (hd and info["h"] and info["mi"]))
+            if tx("TYER") != ("%04d" % info["y"],) or (hd and tx("TDAT") != ("%02d%02d" % (info["d"], info["mo"]),)) or \
+                    (time_ok and tx("TIME") != ("%02d%02d" % (info["h"], info["mi"]),)):
+                viol("the recording date of a v2.%d tag is not in TYER/TDAT/TIME of the v2.3 tag" % src + withv1, "hand-date23")
+        elif tx("TYER") != ((v1year,) if v1year else None):
+            viol("the year of the ID3v1 block is not the TYER of a tag whose v2.%d part has no year" % src, "hand-v1-year")
         if tx("TORY") != ("%04d" % info["oy"],):
-            viol("TORY of a v2.%d tag is not preserved in the v2.3 tag" % src, "hand-tory23")
-        if "IPLS" not in dec or dec["IPLS"][0][3] != tuple(info["people"]):
-            viol("IPLS of a v2.%d tag is not preserved in the v2.3 tag" % src, "hand-ipls23")
+            viol("the original year of a v2.%d tag is not in TORY of the v2.3 tag" % src + withv1, "hand-tory23")
+        if "IPLS" not in dec or dec["IPLS"][0][3] != people + music:
+            viol("the people lists of a v2.%d tag are not in IPLS of the v2.3 tag" % src + withv1, "hand-ipls23")
+        for i in ("TDRC", "TDOR", "TIPL", "TMCL"):
+            if i in dec:
+                viol("v2.3 tag contains the v2.4-only frame %s" % i, "v24-frame-in-v23")
         if any(e not in (0, 1) for l in dec.values() for fr in l for e in encs_of(fr)):
             viol("v2.3 tag contains a text encoding other than Latin-1 / UTF-16", "encoding")
-    # the ID3v1 block written alongside
+    # the ID3v1 block written alongside: the v2 fields (the year of the old block only when the v2 tag has none)
     blk = raw[-128:]
+    year = "%04d" % info["y"] if hy else v1year
+    comments = [ref_latin1(info["comment"], 28) + b"\0"] + ([ref_latin1(V1_FILLED["comment"], 28) + b"\0"] if v1filled else [])
     if blk[:3] != b"TAG" or blk[3:33] != ref_latin1(info["title"], 30) or blk[33:63] != ref_latin1(info["artist"], 30) or blk[63:93] != ref_latin1(info["album"], 30):
-        viol("ID3v1 title/artist/album do not reflect the converted tag", "v1-hand-text")
-    elif blk[93:97] != ("%04d" % info["y"]).encode() or blk[126] != int(info["track"].split("/")[0]) or blk[127] != info["genre"]:
-        viol("ID3v1 year/track/genre do not reflect the converted tag", "v1-hand-num")
-    elif blk[97:126] != ref_latin1(info["comment"], 28) + b"\0":
-        viol("ID3v1 block does not reflect the v2 comment", "v1-comment-not-written")
+        viol("ID3v1 title/artist/album do not reflect the converted tag" + withv1, "v1-hand-text")
+    elif blk[93:97] != (year.encode() if year else b"\0\0\0\0") or blk[126] != int(info["track"].split("/")[0]) or blk[127] != info["genre"]:
+        viol("ID3v1 year/track/genre do not reflect the converted tag" + withv1, "v1-hand-num")
+    elif blk[97:126] not in comments:
+        viol("ID3v1 block does not reflect the v2 comment" + withv1, "v1-comment-not-written")
     return len(ctx.violations) - before
 
 
@@ -1500,9 +1577,17 @@ def direct_oracle(ctx, n_tags, n_hand):
                 return
     for k in range(n_hand):
         cs = rng.getrandbits(48)
-        for src in (2, 3):
-            for dst in (4, 3):
+        for a, src in enumerate((2, 3, 4)):
+            for b, dst in enumerate((4, 3)):
                 oracle_hand(ctx, cs, src, dst)
+                oracle_hand(ctx, cs, src, dst, None, "default")
+                # the same source followed by an ID3v1 block: every year relation x filled/blank with the default load, two of them with v2_version=dst
+                for v1src in V1SRC:
+                    oracle_hand(ctx, cs, src, dst, v1src, "default")
+                for j in range(2):
+                    oracle_hand(ctx, cs, src, dst, V1SRC[(k + a + 2 * b + 3 * j) % len(V1SRC)], "v2ver")
+                if len(ctx.violations) > 40:
+                    return
     for name in SAMPLES:
         oracle_sample(ctx, name)
     # regression case of the fixed finding: the comment of a plain tag must reach the ID3v1 block
@@ -1672,7 +1757,7 @@ def replay(ctx, payload):
     if "hist_seed" in d:
         return oracle_history(ctx, d["hist_seed"], d["mode"], d["sep"], d["v1"], d["existing"]) > 0
     if "hand_seed" in d:
-        return oracle_hand(ctx, d["hand_seed"], d["src"], d["dst"]) > 0
+        return oracle_hand(ctx, d["hand_seed"], d["src"], d["dst"], d.get("v1src"), d.get("load", "explicit")) > 0
     if "sample" in d:
         return oracle_sample(ctx, d["sample"]) > 0
     direct_oracle(ctx, 0, 0)
